@@ -1,70 +1,170 @@
 (* C08 — proofs about Overflow/Model.v *)
-From Coq Require Import ZArith List Bool Lia.
+From Coq Require Import ZArith List Bool Lia PrimFloat.
 From NV Require Import Overflow.Model.
 Import ListNotations.
 Local Open Scope Z_scope.
 
-(* the checked operation fails exactly where the unchecked one panics, and
-   otherwise returns the same in-range result *)
-Lemma rmul_checked_iff : forall x y,
-  (rmul x y = Panic <-> rmul_checked x y = None) /\
-  (forall r, rmul x y = Val r <-> rmul_checked x y = Some r).
+(* ------------------------------------------------- the checked paths never panic *)
+Definition np {A} (x : out A) : Prop := x <> Panic.
+
+Lemma np_bind : forall A B (x : out A) (f : A -> out B),
+  np x -> (forall a, np (f a)) -> np (bind x f).
+Proof. intros A B [| |a] f Hx Hf; simpl; [contradiction|discriminate|apply Hf]. Qed.
+
+Lemma np_val : forall A (a : A), np (Val a). Proof. discriminate. Qed.
+Lemma np_c_mul : forall a b, np (c_mul a b). Proof. intros. unfold c_mul. destruct (fits _); discriminate. Qed.
+Lemma np_c_add : forall a b, np (c_add a b). Proof. intros. unfold c_add. destruct (fits _); discriminate. Qed.
+
+Lemma np_rmul_checked : forall x y, np (rmul_checked x y).
 Proof.
-  intros x y. unfold rmul, rmul_checked. destruct (mul_parts x y) as [n d].
-  destruct (fits n && fits d); split; try split; intros; try discriminate; try reflexivity;
-    try (inversion H; reflexivity).
+  intros [a b] [c d]. unfold rmul_checked.
+  apply np_bind; [apply np_c_mul|]. intros n. apply np_bind; [apply np_c_mul|]. intros. apply np_val.
 Qed.
 
-Lemma rmul_checked_fits : forall x y n d, rmul_checked x y = Some (n, d) -> fits n = true /\ fits d = true.
+Lemma np_radd_checked : forall x y, np (radd_checked x y).
 Proof.
-  intros x y n d. unfold rmul_checked. destruct (mul_parts x y) as [n' d'].
-  destruct (fits n' && fits d') eqn:E; [|discriminate].
-  intros H. inversion H; subst. apply andb_true_iff. assumption.
+  intros [a b] [c d]. unfold radd_checked.
+  repeat (apply np_bind; [first [apply np_c_mul|apply np_c_add]|intros ?]). apply np_val.
 Qed.
 
-(* the value is the product: n/d = (a*c)/(b*d') as a cross-multiplied identity *)
-Lemma mul_parts_value : forall a b c d, b <> 0 -> d <> 0 ->
-  let '(n, m) := mul_parts (a, b) (c, d) in n * (b * d) = (a * c) * m.
+Lemma np_fmap_exp : forall f fs, (forall m, np (f m)) -> np (fmap_exp f fs).
 Proof.
-  intros a b c d Hb Hd. unfold mul_parts.
-  set (g1 := Z.gcd a d). set (g2 := Z.gcd b c).
-  assert (G1 : g1 <> 0) by (unfold g1; intro H; apply Z.gcd_eq_0_r in H; contradiction).
-  assert (G2 : g2 <> 0) by (unfold g2; intro H; apply Z.gcd_eq_0_l in H; contradiction).
-  destruct (Z.gcd_divide_l a d) as [qa Ha]. destruct (Z.gcd_divide_r a d) as [qd Hdd].
-  destruct (Z.gcd_divide_l b c) as [qb Hbb]. destruct (Z.gcd_divide_r b c) as [qc Hc].
-  fold g1 in Ha, Hdd. fold g2 in Hbb, Hc.
-  rewrite Ha at 1. rewrite Z.div_mul by assumption.
-  rewrite Hc at 1. rewrite Z.div_mul by assumption.
-  rewrite Hbb at 2. rewrite Z.div_mul by assumption.
-  rewrite Hdd at 2. rewrite Z.div_mul by assumption.
-  rewrite Hbb at 1. rewrite Hdd at 1. rewrite Ha at 1. rewrite Hc at 1. ring.
+  intros f fs Hf. induction fs as [|[k m] r IH]; [apply np_val|].
+  cbn [fmap_exp]. apply np_bind; [apply Hf|]. intros x. apply np_bind; [exact IH|]. intros. apply np_val.
 Qed.
 
-Lemma dtry_power_iff : forall fs n,
-  (dpower fs n = Panic <-> dtry_power fs n = None) /\
-  (forall r, dpower fs n = Val r <-> dtry_power fs n = Some r).
+Lemma np_fmerge_with : forall add fs, (forall a b, np (add a b)) -> np (fmerge_with add fs).
 Proof.
-  induction fs as [|[f m] fs IH]; intros n.
-  - simpl. split; split; intros H; try discriminate; inversion H; reflexivity.
-  - cbn [dpower dtry_power]. destruct (IH n) as [IH1 IH2].
-    destruct (rmul_checked_iff n m) as [M1 M2].
-    destruct (rmul n m) as [|e] eqn:Em.
-    + rewrite (proj1 M1 eq_refl). split; split; intros; try discriminate; reflexivity.
-    + rewrite (proj1 (M2 e) eq_refl).
-      destruct (dpower fs n) as [|r'] eqn:Ed.
-      * rewrite (proj1 IH1 eq_refl). split; split; intros; try discriminate; reflexivity.
-      * rewrite (proj1 (IH2 r') eq_refl). split; split; intros H; try discriminate; inversion H; reflexivity.
+  intros add fs Ha. induction fs as [|[k m] r IH]; [apply np_val|].
+  cbn [fmerge_with]. apply np_bind; [exact IH|]. intros [|[k' m'] r'']; [apply np_val|].
+  destruct (Nat.eqb k k'); [|apply np_val]. apply np_bind; [apply Ha|]. intros. apply np_val.
 Qed.
 
-(* witnesses of the unchecked paths *)
-Lemma rmul_refuted : exists x y, fits (fst x) = true /\ fits (fst y) = true /\ rmul x y = Panic.
-Proof. exists (10 ^ 30, 1), (10 ^ 30, 1). vm_compute. repeat split. Qed.
+Theorem checked_paths_never_panic : forall fs gs n,
+  np (dtry_power fs n) /\ np (dtry_multiply fs gs).
+Proof.
+  intros. split.
+  - apply np_fmap_exp. intros. apply np_rmul_checked.
+  - apply np_fmerge_with. apply np_radd_checked.
+Qed.
 
-Lemma radd_refuted : exists x y, fits (fst x) = true /\ fits (fst y) = true /\ radd_same x y = Panic.
-Proof. exists (2 ^ 126, 1), (2 ^ 126, 1). vm_compute. repeat split. Qed.
+(* ---------------------- unchecked = checked with "overflow" turned into a panic *)
+Lemma expect_bind : forall A B (x : out A) (f : A -> out B),
+  expect (bind x f) = bind (expect x) (fun a => expect (f a)).
+Proof. intros A B [| |a] f; reflexivity. Qed.
 
-Lemma dpower_refuted : exists fs n, dpower fs n = Panic /\ dtry_power fs n = None.
-Proof. exists [(0%nat, (10 ^ 30, 1))], (10 ^ 30, 1). vm_compute. split; reflexivity. Qed.
+Lemma i_mul_expect : forall a b, i_mul a b = expect (c_mul a b).
+Proof. intros. unfold i_mul, c_mul. destruct (fits _); reflexivity. Qed.
+Lemma i_add_expect : forall a b, i_add a b = expect (c_add a b).
+Proof. intros. unfold i_add, c_add. destruct (fits _); reflexivity. Qed.
+
+Lemma bind_ext : forall A B (x : out A) (f g : A -> out B), (forall a, f a = g a) -> bind x f = bind x g.
+Proof. intros A B [| |a] f g H; simpl; auto. Qed.
+
+Lemma rmul_expect : forall x y, rmul x y = expect (rmul_checked x y).
+Proof.
+  intros [a b] [c d]. unfold rmul, rmul_checked.
+  rewrite expect_bind, <- i_mul_expect. apply bind_ext. intros n.
+  rewrite expect_bind, <- i_mul_expect. reflexivity.
+Qed.
+
+Lemma fmap_exp_expect : forall f g fs, (forall m, f m = expect (g m)) ->
+  fmap_exp f fs = expect (fmap_exp g fs).
+Proof.
+  intros f g fs H. induction fs as [|[k m] r IH]; [reflexivity|].
+  cbn [fmap_exp]. rewrite expect_bind, <- H. apply bind_ext. intros x.
+  rewrite expect_bind, <- IH. reflexivity.
+Qed.
+
+(* DType::power panics exactly where DType::try_power reports an overflow, and
+   returns the same exponents otherwise *)
+Theorem dpower_expect : forall fs n, dpower fs n = expect (dtry_power fs n).
+Proof. intros. apply fmap_exp_expect. intros. apply rmul_expect. Qed.
+
+Theorem dmultiply_expect : forall a b, dmultiply a b = expect (dtry_multiply a b).
+Proof. reflexivity. Qed.
+
+(* Ratio addition: for well-formed operands (components in range, positive
+   denominators) `+` panics exactly where checked_add returns None *)
+Definition wf_ratio (x : ratio) : Prop := fits (fst x) = true /\ fits (snd x) = true /\ 0 < snd x.
+
+Lemma div_mul_swap : forall b d, 0 < b -> 0 < d ->
+  b * (d / Z.gcd b d) = (b / Z.gcd b d) * d.
+Proof.
+  intros b d Hb Hd. set (g := Z.gcd b d).
+  assert (Hg : 0 < g).
+  { unfold g. pose proof (Z.gcd_nonneg b d). assert (Z.gcd b d <> 0); [|lia].
+    intro E. apply Z.gcd_eq_0_l in E. lia. }
+  destruct (Z.gcd_divide_l b d) as [qb Eb]. destruct (Z.gcd_divide_r b d) as [qd Ed].
+  fold g in Eb, Ed.
+  replace (d / g) with qd by (rewrite Ed at 1; rewrite Z.div_mul; lia).
+  replace (b / g) with qb by (rewrite Eb at 1; rewrite Z.div_mul; lia).
+  clearbody g. subst b d. ring.
+Qed.
+
+Lemma c_mul_comm : forall x y, c_mul x y = c_mul y x.
+Proof. intros. unfold c_mul. rewrite Z.mul_comm. reflexivity. Qed.
+
+Lemma radd_expect : forall x y, wf_ratio x -> wf_ratio y -> radd x y = expect (radd_checked x y).
+Proof.
+  intros [a b] [c d] (Fa & Fb & Pb) (Fc & Fd & Pd). cbn [fst snd] in *.
+  unfold radd, radd_checked. cbv zeta.
+  destruct (b =? d) eqn:E.
+  - apply Z.eqb_eq in E. subst d.
+    rewrite Z.gcd_diag, Z.abs_eq by lia. rewrite Z.div_same by lia.
+    unfold c_mul at 1. rewrite Z.mul_1_l, Fb. cbn [bind].
+    rewrite Z.div_same by lia. unfold c_mul. rewrite !Z.mul_1_l, Fa, Fc. cbn [bind].
+    rewrite expect_bind, <- i_add_expect. reflexivity.
+  - assert (Ec : c_mul (b / Z.gcd b d) d = c_mul b (d / Z.gcd b d)).
+    { unfold c_mul. rewrite <- (div_mul_swap b d Pb Pd). reflexivity. }
+    rewrite Ec. set (l := b * (d / Z.gcd b d)).
+    assert (Pl : 0 <= l).
+    { unfold l. apply Z.mul_nonneg_nonneg; [lia|]. apply Z.div_pos; [lia|].
+      pose proof (Z.gcd_nonneg b d). assert (Z.gcd b d <> 0); [|lia].
+      intro G. apply Z.gcd_eq_0_l in G. lia. }
+    rewrite expect_bind, <- i_mul_expect.
+    destruct (i_mul b (d / Z.gcd b d)) as [| |l'] eqn:El; try reflexivity.
+    assert (l' = l).
+    { unfold i_mul in El. fold l in El. destruct (fits l); inversion El; reflexivity. }
+    subst l'. cbn [bind]. rewrite Z.abs_eq by assumption.
+    rewrite expect_bind, (c_mul_comm (l / b) a), <- i_mul_expect. apply bind_ext. intros ln.
+    rewrite expect_bind, (c_mul_comm (l / d) c), <- i_mul_expect. apply bind_ext. intros rn.
+    rewrite expect_bind, <- i_add_expect. reflexivity.
+Qed.
+
+(* a value returned by the checked multiplication is in range *)
+Lemma rmul_checked_fits : forall x y n d, rmul_checked x y = Val (n, d) -> fits n = true /\ fits d = true.
+Proof.
+  intros [a b] [c e] n d. unfold rmul_checked, c_mul.
+  destruct (fits (a / Z.gcd a e * (c / Z.gcd b c))) eqn:E1; [|discriminate]. cbn [bind].
+  destruct (fits (b / Z.gcd b c * (e / Z.gcd a e))) eqn:E2; [|discriminate]. cbn [bind].
+  intros H. inversion H; subst. split; assumption.
+Qed.
+
+(* ------------------------------------------ witnesses of the unchecked paths *)
+(* ((m/cm)^1e30)^1e30 : UnitFactor::power, exponent 1e30 * 1e30 *)
+Lemma upower_refuted :
+  upower [(0%nat, (10 ^ 30, 1)); (1%nat, (- 10 ^ 30, 1))] (10 ^ 30, 1) = Panic
+  /\ rmul_checked (10 ^ 30, 1) (10 ^ 30, 1) = Overflow.
+Proof. vm_compute. split; reflexivity. Qed.
+
+(* fn f(x) = x^(2^126) * x^(2^126) : DType::power during substitution, exponent 2 * 2^126 *)
+Lemma dpower_refuted :
+  dpower [(0%nat, (2 ^ 126, 1))] (2, 1) = Panic /\ dtry_power [(0%nat, (2 ^ 126, 1))] (2, 1) = Overflow.
+Proof. vm_compute. split; reflexivity. Qed.
+
+(* dimension Z = Length^(2^126) * Length^(2^126) : merge of equal keys, 2^126 + 2^126 *)
+Lemma pmultiply_refuted :
+  pmultiply [(0%nat, (2 ^ 126, 1))] [(0%nat, (2 ^ 126, 1))] = Panic
+  /\ dtry_multiply [(0%nat, (2 ^ 126, 1))] [(0%nat, (2 ^ 126, 1))] = Overflow
+  /\ dmultiply [(0%nat, (2 ^ 126, 1))] [(0%nat, (2 ^ 126, 1))] = Panic.
+Proof. vm_compute. repeat split; reflexivity. Qed.
+
+(* m^(1/2^100) + m^(1/3^70) : exponents 1/2^100 and 1/3^70, the lcm of the denominators *)
+Lemma radd_lcm_refuted :
+  radd (1, 2 ^ 100) (-1, 3 ^ 70) = Panic /\ radd_checked (1, 2 ^ 100) (-1, 3 ^ 70) = Overflow
+  /\ wf_ratio (1, 2 ^ 100) /\ wf_ratio (-1, 3 ^ 70).
+Proof. vm_compute. repeat split; reflexivity. Qed.
 
 (* ---------------------------------------------------------------- factorial *)
 Lemma fact_loop_terminates : forall fuel x order result,
@@ -85,8 +185,6 @@ Proof.
   rewrite Hv. eauto.
 Qed.
 
-(* 65536 exclamation marks: the order becomes 0; the debug assertion fails, and
-   without it the loop never ends for x = 1 *)
 Lemma factorial_truncation_refuted :
   order_u16 65536 = 0 /\
   (forall fuel x, factorial_dbg fuel x (order_u16 65536) = Panic) /\
@@ -100,3 +198,11 @@ Qed.
 
 Lemma order_u16_ok : forall b, 1 <= b < 65536 -> order_u16 b = b.
 Proof. intros. unfold order_u16. apply Z.mod_small. lia. Qed.
+
+Set Warnings "-inexact-float".
+(* ------------------------------ 1 Rm^12/m < 1 Qm^11 : both unit factors are +inf in f64 *)
+Lemma cmp_nan_refuted :
+  cmp_after_conversion 1 1 (fpow 1e30 11) (fpow 1e27 12 / 1)%float = Panic
+  /\ PrimFloat.is_nan (fpow 1e30 11 / (fpow 1e27 12 / 1))%float = true
+  /\ cmp_after_conversion 1 1 (fpow 1e30 2) (fpow 1e27 2)%float = Val FLt.
+Proof. vm_compute. repeat split; reflexivity. Qed.
